@@ -23,7 +23,7 @@ def agent_cases(draw):
     n = draw(st.integers(1, 8))
     alpha = draw(st.one_of(st.just(-1), st.floats(0.001, 1.0, allow_nan=False), st.sampled_from([0.1, 0.5, 1.0])))
     eps = draw(st.one_of(st.sampled_from([0.0, 1.0, 0.1, 0.5]), st.floats(0, 1, allow_nan=False)))
-    init = draw(st.sampled_from([0.0, 0.0, 1.0, -1.0, 5.5]))
+    init = draw(st.sampled_from([0.0, 0.0, 1.0, -1.0, 5.5, 0, 1, 2]))   # ints too: 'optimistic initial values' are often written 1
     seed = draw(st.integers(0, 2**31 - 1))
     op = st.one_of(st.tuples(st.just("policy")), st.tuples(st.just("learn"), st.integers(0, n - 1), rewards),
                    st.tuples(st.just("learn"), st.just(draw(st.integers(0, n - 1))), rewards),
